@@ -168,6 +168,11 @@ def images(rng, version, collide=False):
                 at["path"] = "%s/%s/iso/img%d.%s" % (v, "source" if a == "src" else a, n, at["format"])
                 if version == "1.0":
                     at["subvariant"] = ""
+                    both = [t for t in domains.IMAGE_TYPES if t in domains.IMAGE_FORMATS]
+                    if both and rng.random() < 0.15:
+                        # the format key is absent (documented default 'iso') on an image whose TYPE is also a format name
+                        at["type"], at["format"] = rng.choice(both), "iso"
+                        at["omit_format"] = True
                 # identity must stay unique once the file is rewritten as a current-version file
                 for _try in range(30):
                     ident = FI.model_identity(at)
@@ -211,7 +216,7 @@ def images(rng, version, collide=False):
                 d = dict((k, at[k]) for k in FI.ATTRS if k not in ("unified", "additional_variants"))
                 if version == "1.0":
                     d.pop("subvariant")
-                    if d["format"] == "iso" and rng.random() < 0.5:
+                    if d["format"] == "iso" and (rng.random() < 0.5 or at.get("omit_format")):
                         d.pop("format")        # documented default
                 out.append(d)
     hdr = {"version": version}
